@@ -335,8 +335,10 @@ Qed.
 Lemma testbit_top (k : N) (n : N) : (k < 2 ^ N.succ n)%N -> N.testbit k n = (2 ^ n <=? k)%N.
 Proof.
   intros Hk. destruct (N.leb_spec (2 ^ n) k) as [H|H].
-  - assert (N.log2 k = n) as <-. { apply N.log2_unique'. split; [exact H|]. exact Hk. }
-    apply N.bit_log2. intros ->. assert (0 < 2 ^ n)%N by (apply N.neq_0_lt_0, N.pow_nonzero; lia). lia.
+  - assert (E : n = N.log2 k). { symmetry. apply N.log2_unique; [lia|]. split; [exact H|exact Hk]. }
+    assert (Hk0 : k <> 0%N).
+    { intros ->. assert (0 < 2 ^ n)%N by (apply N.neq_0_lt_0, N.pow_nonzero; lia). lia. }
+    rewrite E. apply N.bit_log2. exact Hk0.
   - destruct (N.eq_dec k 0) as [->|Hk0]; [apply N.bits_0|].
     apply N.bits_above_log2. apply N.log2_lt_pow2; lia.
 Qed.
@@ -352,11 +354,11 @@ Proof.
   destruct (Nat.eqb_spec i n) as [->|Hne].
   - destruct (N.ltb_spec k w) as [H1|H1].
     + rewrite N.shiftl_spec_low by exact H1.
-      destruct (N.ltb_spec k (2 * w)); [|lia]. simpl.
+      destruct (N.ltb_spec k (2 * w)); [|lia]. cbn [andb orb].
       rewrite testbit_top by (rewrite <- Nat2N.inj_succ, Hw; lia).
       fold w. destruct (N.leb_spec w k); [lia|reflexivity].
     + rewrite N.shiftl_spec_high' by exact H1.
-      destruct (N.ltb_spec k (2 * w)) as [H2|H2]; simpl.
+      destruct (N.ltb_spec k (2 * w)) as [H2|H2]; cbn [andb orb].
       * rewrite N.ones_spec_low by lia.
         rewrite testbit_top by (rewrite <- Nat2N.inj_succ, Hw; lia).
         fold w. destruct (N.leb_spec w k); [reflexivity|lia].
@@ -369,14 +371,14 @@ Proof.
       destruct (N.ltb_spec k w); [|lia]. destruct (N.ltb_spec k (2 * w)); [|lia]. reflexivity.
     + rewrite N.shiftl_spec_high' by exact H1.
       rewrite !IH by exact Hi'. fold w.
-      destruct (N.ltb_spec k w); [lia|]. simpl.
-      destruct (N.ltb_spec k (2 * w)) as [H2|H2]; destruct (N.ltb_spec (k - w) w) as [H3|H3]; try lia; simpl.
-      * rewrite <- (N.mod_pow2_bits_low k (N.of_nat n)) by lia.
+      destruct (N.ltb_spec k w); [lia|]. cbn [andb orb].
+      destruct (N.ltb_spec k (2 * w)) as [H2|H2]; destruct (N.ltb_spec (k - w) w) as [H3|H3]; try lia; cbn [andb orb].
+      * assert (Hm : (k mod w = (k - w) mod w)%N).
+        { replace (k mod w)%N with (((k - w) + 1 * w) mod w)%N by (f_equal; lia).
+          apply N.mod_add. unfold w. apply N.pow_nonzero. lia. }
+        rewrite <- (N.mod_pow2_bits_low k (N.of_nat n)) by lia.
         rewrite <- (N.mod_pow2_bits_low (k - w) (N.of_nat n)) by lia.
-        fold w. f_equal.
-        replace k with ((k - w) + 1 * w)%N at 2 by lia.
-        rewrite N.mod_add; [reflexivity|]. unfold w. apply N.pow_nonzero. lia.
-      * reflexivity.
+        fold w. rewrite Hm. reflexivity.
 Qed.
 
 (** every 0/1 list of length n is the list of bits of some k < 2^n *)
@@ -438,25 +440,25 @@ Lemma inner_wf n d p r : d <> 0%N -> wf_net (N.to_nat n) (inner n d p r).
 Proof.
   intros Hd. unfold wf_net, inner. apply Forall_forall. intros c Hc.
   apply in_flat_map in Hc. destruct Hc as [i [Hi Hc]]. apply in_seq in Hi.
-  destruct (N.eqb _ _); [|contradiction]. destruct Hc as [<-|[]]. simpl. lia.
+  revert Hc. destruct (N.eqb _ _); intros Hc; simpl in Hc; [|contradiction]. destruct Hc as [Hc|[]]. subst c. simpl. lia.
 Qed.
 
 Lemma loop_d_wf fuel : forall n d q r p l, loop_d fuel n d q r p = Some l -> wf_net (N.to_nat n) l.
 Proof.
-  induction fuel as [|f IH]; intros n d q r p l H; simpl in H; [discriminate|].
-  destruct (N.eqb_spec d 0).
+  induction fuel as [|f IH]; intros n d q r p l H; cbn [loop_d] in H; [discriminate|].
+  revert H. destruct (N.eqb_spec d 0); intros H.
   - injection H as <-. constructor.
-  - destruct (loop_d f n (q - p) (N.shiftr q 1) p p) as [l'|] eqn:E; [|discriminate].
+  - revert H. destruct (loop_d f n (q - p) (N.shiftr q 1) p p) as [l'|] eqn:E; intros H; [|discriminate].
     injection H as <-. apply Forall_app. split; [apply inner_wf; assumption|eapply IH; eassumption].
 Qed.
 
 Lemma loop_p_wf fuel : forall n t p l, loop_p fuel n t p = Some l -> wf_net (N.to_nat n) l.
 Proof.
-  induction fuel as [|f IH]; intros n t p l H; simpl in H; [discriminate|].
-  destruct (N.eqb p 0).
+  induction fuel as [|f IH]; intros n t p l H; cbn [loop_p] in H; [discriminate|].
+  revert H. destruct (N.eqb p 0); intros H.
   - injection H as <-. constructor.
-  - destruct (loop_d _ n p _ 0 p) as [l1|] eqn:E1; [|discriminate].
-    destruct (loop_p f n t (N.shiftr p 1)) as [l2|] eqn:E2; [|discriminate].
+  - revert H. destruct (loop_d _ n p _ 0 p) as [l1|] eqn:E1; [|discriminate].
+    destruct (loop_p f n t (N.shiftr p 1)) as [l2|] eqn:E2; intros H; [|discriminate].
     injection H as <-. apply Forall_app. split; [eapply loop_d_wf; eassumption|eapply IH; eassumption].
 Qed.
 
@@ -495,8 +497,8 @@ Proof. destruct l as [|a [|b l]]; simpl; intros H; try lia; repeat constructor. 
 (** runtime.sorted at value level, for every length whose network passes the certificate *)
 Theorem sorted_model_correct : forall xs : list Z,
   me_check (length xs) = true ->
-  forall reverse,
-    (if reverse then Sorted Z.ge else Sorted Z.le) (sorted_model xs reverse) /\
+  forall reverse : bool,
+    (if reverse then Sorted Z.ge (sorted_model xs true) else Sorted Z.le (sorted_model xs false)) /\
     Permutation (sorted_model xs reverse) xs.
 Proof.
   intros xs Hc reverse. unfold sorted_model.
